@@ -222,8 +222,8 @@ class ExprSim(core.Engine):
             right = {'dec': rng.choice(['0.5', '1.25', '-2', '100', '0', '3.333'])}
         else:
             right = pick_expr()
-            if right == left:
-                right = {'int': 2}
+            if rng.random() < 0.1:
+                right = dict(left)       # the same object on both sides: x + x, x *= x
         return {'o': o, 'mode': mode, 'l': left, 'r': right}
 
     def _apply(self, st: dict, op: dict, step: int, stats, sig: list) -> list[Violation]:
@@ -261,7 +261,10 @@ class ExprSim(core.Engine):
                 except (decimal.DecimalException, ZeroDivisionError):
                     raise KeyError('right operand does not evaluate')
             if r_obj is left:
-                raise KeyError('same operand twice')
+                # x op x: ordinary arithmetic; in place the right-hand side is used, not consumed
+                stats['same_object_both_sides'] += 1
+                r_attached = False
+                r_free_idx = None
             a, b = (rv, lv) if mode == 'reflected' else (lv, rv)
             if o == '/' and b == 0:
                 stats['skipped_zero_divisor'] += 1
